@@ -4,7 +4,7 @@
 
 use crate::s_iter::SymRange;
 use crate::src::Src;
-use crate::tok::{zdrops, zreset, Z};
+use crate::tok::{zdrops, zfmt_reset, zfmts, zreset, Z};
 use crate::*;
 use circular_buffer::CircularBuffer;
 
@@ -53,7 +53,7 @@ pub fn zst_op<const N: usize, const G: usize, const P: u32, S: Src>(s: &mut S) {
     // G selects a group of five operations at compile time (keeps each query small)
     let op = s.u8();
     let group = if op < 15 { (op as usize) / 5 } else if op < 17 { 3 } else { (op as usize) - 13 };
-    s.assume(op < 20 && group == G);
+    s.assume(op < 21 && group == G);
     let a = s.usize();
     let c = s.usize();
     cov!(a == usize::MAX, "zst: argument usize::MAX");
@@ -264,6 +264,36 @@ pub fn zst_op<const N: usize, const G: usize, const P: u32, S: Src>(s: &mut S) {
                 core::mem::forget(f);
             }
         }
+    }
+    if G == 7 {
+        // Debug of the buffer and of a partly consumed Drain (Drain::as_slices is reachable through that impl only):
+        // the formatter must visit exactly the live / not yet yielded elements, without overflow at front positions
+        // right below the capacity
+        use core::fmt::Write;
+        let r = SymRange::any(s);
+        s.assume(!r.must_panic(len));
+        let (x, y) = r.math(len);
+        let (x, y) = (x as usize, y as usize);
+        let mut sink = crate::s_cmp::Sink::new();
+        zfmt_reset();
+        let ok = write!(sink, "{:?}", b).is_ok();
+        chk!(ok && zfmts() == len as u64, "zst: Debug of the buffer formats every element once");
+        let mut d = b.drain(r);
+        let mut taken = 0;
+        if s.bool() {
+            let t = if s.bool() { d.next() } else { d.next_back() };
+            if t.is_some() {
+                taken += 1;
+            }
+            core::mem::forget(t);
+        }
+        zfmt_reset();
+        let ok = write!(sink, "{:?}", d).is_ok();
+        chk!(ok && zfmts() == (y - x - taken) as u64, "zst: Debug of a Drain formats exactly the elements not yet yielded");
+        cov!(k > 0 && x < k && y > k && taken == 1, "zst: Debug of a Drain whose range straddles position N");
+        drop(d);
+        expect_drops = (y - x - taken) as u64;
+        expect_len = len - (y - x);
     }
     chk!(b.len() == expect_len, "zst: length follows the sequence semantics");
     chk!(b.is_empty() == (expect_len == 0), "zst: is_empty follows the sequence semantics");
